@@ -14,7 +14,7 @@ import (
 )
 
 // Hostile collection names: prefix pairs, names that look like key prefixes, unicode, empty.
-var collNames = []string{"c", "cc", "c:", "coll:", "c1", "x", "xy", "日本語", "a b", "", "C", "c:x", "d:", "i:a"}
+var collNames = []string{"c", "cc", "c:", "coll:", "c1", "x", "xy", "日本語", "a b", "", "C", "c:x", "d:", "i:a", "c.n", "x.n", "a-rather-long-collection-name-0123456789-abcdef"}
 
 type SeqCfg struct {
 	Focus      string
@@ -172,6 +172,9 @@ func (d *seqRun) newDocs(coll string, n int) []map[string]any {
 			}
 		case 2:
 			docs[pos]["_id"] = gen.Pick(d.r, malformedIDs)
+			if d.r.Bool() {
+				docs[pos]["_expiresAt"] = time.Date(2100, 6, 1, 0, 0, 0, 0, time.UTC) // a valid expiration must not hide the bad id
+			}
 		default:
 			docs[pos]["_expiresAt"] = "tomorrow"
 		}
